@@ -91,6 +91,9 @@ FixStep ==
      /\ Chk("C01_Vocabulary", e.cls # "STRUCT" \/ \A k \in 1..nw :
               ExplainsCode(NV(Code(ws[k].pre)), NV(Code(ws[k].post)),
                            CodeCtxLeft(toks, ws[k].s), CodeCtxRight(toks, ws[k].s + ws[k].n + 1), NamesBefore(toks, ws[k].s)))
+     \* a structural fix leaves every name after 'end block' / 'end process' equal to the label of the statement it closes
+     /\ Chk("C01_EndNameMatches", e.cls # "STRUCT" \/ LET c0 == NV(Code(toks))  c1 == NV(Code(t2)) IN
+              c0 = c1 \/ \A kw \in {W_BLOCK, W_PROCESS} : EndNamesMatch(c0, kw) => EndNamesMatch(c1, kw))
      \* ---- C02: comments
      /\ Chk("C02_StepComments", e.silent \/ StepIsSumOfHunks(toks, t2, ws, CommentKinds))
      /\ Chk("C02_CommentsKept", \A k \in 1..nw : \/ CommentsSame(ws[k].pre, ws[k].post)
